@@ -7,7 +7,8 @@
    to six decimals) and is sampled by the harness.
    PARTIAL: the induction through lists, dicts and whole grids (jparse_grid of
    jdump_grid) is not proved; it is covered by the correspondence + search. *)
-From Coq Require Import String.
+From Coq Require Import String List.
+Import ListNotations.
 From HS Require Import Base.Prelude Gen.JsonData Model.Value Model.Json Proofs.JsonP.
 Open Scope N_scope.
 
@@ -77,3 +78,20 @@ Proof. intros. split; [reflexivity | apply rt_remove]. Qed.
 (* non-vacuity: a value whose '%f' token satisfies the shape *)
 Example C02_f6_example : f6_shape [45; 49; 50; 46; 53; 48; 48; 48; 48; 48].   (* -12.500000 *)
 Proof. exists true, [49; 50], [53; 48; 48; 48; 48; 48]. repeat split; try reflexivity; discriminate. Qed.
+
+(* NESTING: lists and dicts (pairwise distinct keys, not all three of meta / cols / rows) to any depth over leaves
+   that round-trip, round-trip - `rtn n v v'` says v' is what v reads back as: leaves by the per-kind theorems
+   above, lists element-wise, dicts value-wise with the same keys *)
+Theorem C02_nested : forall n v v', rtn n v v' -> forall fuel j, jdump fuel false v = Ok j -> jparse fuel false j = Ok v'.
+Proof. exact nested_roundtrip. Qed.
+(* in particular every tree of lists and dicts over strings, URIs, Bins, markers, nulls, booleans, NA, Remove
+   comes back as itself *)
+Theorem C02_nested_plain : forall n v fuel j, plain n v -> jdump fuel false v = Ok j -> jparse fuel false j = Ok v.
+Proof. intros n v fuel j. exact (plain_roundtrip n v fuel j). Qed.
+Example C02_nested_applies :
+  plain 4 (VList [VStr (s_ "a"); VDict [(s_ "k", VList [VMarker; VUri (s_ "u")]); (s_ "meta", VNA)]; VList []]).
+Proof.
+  cbn [plain]. repeat constructor.
+  - intros [E|[]]. vm_compute in E. discriminate E.
+  - intros [].
+Qed.
